@@ -10,5 +10,14 @@ subprocess.run(["git", "-C", "/repo", "worktree", "add", "--detach", wt], check=
 p = props[pid]
 text = (tmpl.replace("{WT}", wt).replace("{ID}", pid).replace("{TITLE}", p['title'])
         .replace("{STATEMENT}", p['statement']).replace("{QUANT}", p['quantifier']['text']).replace("{N}", n))
+import glob, os
+tried = []
+for m in sorted(glob.glob(f"/verif/seeded/{pid}-*/notes.md")):
+    first = " ".join(open(m).read().split())[:260]
+    tried.append("  - " + first)
+if tried:
+    text += ("\n\nOther engineers have already delivered the following changes for this property; do NOT repeat them - "
+             "choose different functions, different mechanisms and different triggering conditions (other clauses of the "
+             "property, other modules it is anchored in):\n" + "\n".join(tried) + "\n")
 open(f"/tmp/seedprompt-{pid}-{tag}.txt", "w").write(text)
 print(wt)
